@@ -10,7 +10,7 @@ import z3
 
 from . import logic as L
 from .logic import Val, I, B
-from .findings import lock_key
+from .findings import lock_key, finding_key
 
 
 # ---------------------------------------------------------------------------
@@ -397,7 +397,7 @@ class Exec:
             status = 'proved' if goal else 'refuted'
             ob = Obligation(name, props, status, self.cur_func, self.path_id(), None, 0.0, info, static=True)
             if not goal:
-                conds = self.engine.finding_conds.get(lock_key(name))
+                conds = self.engine.finding_conds.get(finding_key(name))
                 if conds and all(L.is_true(L.simp(c(self))) for _, c in conds):
                     ob.status = 'known'
                     ob.info = dict(info or {})
@@ -418,7 +418,7 @@ class Exec:
             status = 'refuted'
             model = self.summarise_model(self.solver.model(), info)
             # known findings: is every counterexample covered by the recorded failing branches?
-            conds = self.engine.finding_conds.get(lock_key(name))
+            conds = self.engine.finding_conds.get(finding_key(name))
             if conds:
                 fs = [(fid, c(self)) for fid, c in conds]
                 cover = L.simp(z3.Or([f for _, f in fs]))
@@ -1076,11 +1076,16 @@ class Exec:
                 if not self.branch(n >= pre + post, 'unpack-enough'):
                     self.raise_('ValueError', 'not enough values to unpack')
                 r = m.seq_ref_b(self, v)
-                arr = z3.Const(self.fresh_name('starred'), z3.ArraySort(I, Val))
-                J = z3.Int('K_view')
-                self.assume(z3.Select(arr, J) == self.heap.lelt(r, J + pre))
-                self.note_array_elems(arr, ('from', r))
-                mid = L.ListV(self.new_list(n - pre - post, arr))
+                nc = L.simp(n)
+                if z3.is_int_value(nc) and nc.as_long() <= 16:
+                    # a sequence of known small length: the starred part is the list of exactly those elements
+                    mid = L.ListV(self.new_list_from([m.seq_get(self, v, z3.IntVal(pre + k)) for k in range(nc.as_long() - pre - post)]))
+                else:
+                    arr = z3.Const(self.fresh_name('starred'), z3.ArraySort(I, Val))
+                    J = z3.Int('K_view')
+                    self.assume(z3.Select(arr, J) == self.heap.lelt(r, J + pre))
+                    self.note_array_elems(arr, ('from', r))
+                    mid = L.ListV(self.new_list(n - pre - post, arr))
                 vals = [m.seq_get(self, v, z3.IntVal(k)) for k in range(pre)] + [mid] + \
                        [m.seq_get(self, v, n - post + k) for k in range(post)]
             for t, x in zip(target.elts, vals):
